@@ -26,6 +26,9 @@ tx_is(int i, coap_pdu_type_t type, uint8_t code, uint16_t mid) {
          ne_tx_first[i][2] == (uint8_t)(mid >> 8) && ne_tx_first[i][3] == (uint8_t)mid;
 }
 
+/* GnuTLS side (not linked) */
+unsigned int coap_dtls_get_overhead(coap_session_t *session) { (void)session; return 29; }
+
 /* ---- C07-S1: one response delivery ------------------------------------------------------------------------- */
 VERIF_HARNESS(c07_s1_response) {
   ne_init();
@@ -162,7 +165,12 @@ VERIF_HARNESS(c08_s1_submit) {
   ne_ctx.sendqueue_basetime = now;
   ne_sess.nstart = nstart;
   ne_sess.con_active = con_active;
+#ifdef SPROTO
+  ne_sess.proto = (coap_proto_t)SPROTO;      /* C19: DTLS session, handshake not finished */
+  ne_sess.state = established ? COAP_SESSION_STATE_ESTABLISHED : COAP_SESSION_STATE_HANDSHAKE;
+#else
   ne_sess.state = established ? COAP_SESSION_STATE_ESTABLISHED : COAP_SESSION_STATE_CONNECTING;
+#endif
   coap_queue_t *held = NULL;
 #if DELAYED
   /* representation invariant: something is held only if the session is not up or all NSTART slots are taken */
@@ -226,6 +234,11 @@ VERIF_HARNESS(c08_s2_drain) {
   ne_ctx.sendqueue_basetime = now;
   ne_sess.nstart = nstart;
   ne_sess.con_active = con_active;
+#ifdef DPROTO
+  ne_sess.proto = (coap_proto_t)DPROTO;      /* C19: the handshake has just completed */
+  ne_sess.state = COAP_SESSION_STATE_HANDSHAKE;
+  ne_sess.mtu = 1152;
+#endif
   coap_queue_t *h[3] = {0, 0, 0};
   int i;
   for (i = 0; i < HELD; i++) {
@@ -255,5 +268,62 @@ VERIF_HARNESS(c08_s2_drain) {
 #ifdef WITNESS
   if (sent == 1 && HELD >= 2) VERIF_REACH("C08 partial drain");
   if (HELD < 2) VERIF_REACH("C08 drain end");
+#endif
+}
+
+/* ---- C08-S4 / C19-S3 / C06-S6: session failure: every message still owned by the session is reported once ------------ */
+#ifndef NHELD
+#define NHELD 2
+#endif
+#ifndef INFLIGHT
+#define INFLIGHT 0
+#endif
+#ifndef FPROTO
+#define FPROTO 2          /* COAP_PROTO_DTLS */
+#endif
+static int close_calls;
+static void ne_l_close(coap_session_t *s) { (void)s; close_calls++; }
+VERIF_HARNESS(c08_s4_session_failure) {
+  ne_init();
+  VERIF_IN(uint16_t, mid);
+  VERIF_IN_BUF(tok, 4);
+  VERIF_IN(uint8_t, types);     /* bit i: held message i is NON */
+  VERIF_IN(uint8_t, reason_sel);
+  VERIF_ASSUME(reason_sel <= 1);
+  coap_nack_reason_t reason = reason_sel ? COAP_NACK_TLS_FAILED : COAP_NACK_NOT_DELIVERABLE;
+  ne_sess.proto = (coap_proto_t)FPROTO;
+  ne_sess.state = INFLIGHT ? COAP_SESSION_STATE_ESTABLISHED : COAP_SESSION_STATE_HANDSHAKE;
+  ne_sess.sock.lfunc[COAP_LAYER_SESSION].l_close = ne_l_close;
+  coap_queue_t *h[3] = {0, 0, 0};
+  int i, cons = 0;
+  for (i = 0; i < NHELD; i++) {
+    int non = (types >> i) & 1;
+    h[i] = coap_new_node();
+    h[i]->pdu = ne_make_pdu(non ? COAP_MESSAGE_NON : COAP_MESSAGE_CON, 1, (uint16_t)(mid + i), tok, 4);
+    h[i]->id = h[i]->pdu->mid;
+    if (i) h[i - 1]->next = h[i];
+    if (!non) cons++;
+  }
+  ne_sess.delayqueue = h[0];
+#if INFLIGHT
+  {
+    coap_queue_t *n = ne_make_node(&ne_sess, ne_make_pdu(COAP_MESSAGE_CON, 1, (uint16_t)(mid + 7), tok, 4), 2000, 1);
+    n->t = 2000;
+    ne_ctx.sendqueue = n;
+    ne_sess.con_active = 1;
+    cons++;
+  }
+#endif
+  close_calls = 0;
+  coap_session_disconnected_lkd(&ne_sess, reason);
+  VERIF_ASSERT(ne_tx_count == 0, "failure: nothing the application queued is transmitted (no cleartext on a failed (D)TLS session)");
+  VERIF_ASSERT(ne_sess.delayqueue == NULL && ne_ctx.sendqueue == NULL, "failure: no message of the session stays queued");
+  VERIF_ASSERT(ne_sess.con_active == 0, "failure: in-flight count reset");
+  if (cons > 0) VERIF_ASSERT(ne_nack_count == cons && ne_nack_reason == reason, "failure: each Confirmable owned by the session is reported by exactly one NACK with the failure reason; Non-confirmables by none");
+  else VERIF_ASSERT(ne_nack_count == 1 && ne_nack_pdu == NULL, "failure: with no Confirmable pending a single anonymous NACK reports the failure");
+  VERIF_ASSERT(close_calls == 1, "failure: the transport is closed once");
+#ifdef WITNESS
+  if (cons == NHELD + INFLIGHT && NHELD > 0) VERIF_REACH("failure with only Confirmables");
+  if (NHELD == 0) VERIF_REACH("failure end");
 #endif
 }
